@@ -50,7 +50,8 @@ ASSUMPTIONS = [
     "the model mirrors the run loop after harness/patches/C15-step0-once.diff (step-0 block once per object)",
 ]
 
-DRIVERS = ["can", "gc", "fb"]
+DRIVERS = ["can", "gc", "fb", "afb"]
+FBLIKE = ("fb", "afb")     # drivers without a move table / restart file / srun
 IVALS = [-7, -6, -5, -4, -3, -2, -1, 1, 2, 3, 4, 5, 6, 7]
 
 
@@ -71,7 +72,7 @@ def _imports():
     from quansino.io.restart import RestartObserver
     from quansino.io.trajectory import TrajectoryObserver
     from quansino.mc.canonical import Canonical
-    from quansino.mc.fbmc import ForceBias
+    from quansino.mc.fbmc import AdaptiveForceBias, ForceBias
     from quansino.mc.gcmc import GrandCanonical
     from quansino.moves.displacement import DisplacementMove
     from quansino.moves.exchange import ExchangeMove
@@ -85,6 +86,16 @@ def _imports():
             super().calculate(atoms, properties, system_changes)
             d = self.atoms.get_positions() - 1.7
             self.results = {"energy": 0.05 * float((d * d).sum()), "forces": -0.1 * d}
+
+    class HarmComm(Harm):
+        """the same well with a committee whose spread depends on the configuration: what AdaptiveForceBias reads from
+        `calc.results` at the start of a step must belong to the configuration the previous step ended in"""
+
+        def calculate(self, atoms=None, properties=None, system_changes=all_changes):
+            super().calculate(atoms, properties, system_changes)
+            f = self.results["forces"]
+            spread = 0.3 * np.abs(np.sin(self.atoms.get_positions()))
+            self.results["forces_comm"] = np.stack([f * (1 + (k - 1) * spread) for k in range(3)])
 
     class Rec(Observer):
         def __init__(self, interval, sink, pos, sim):
@@ -132,6 +143,7 @@ def _imports():
     return dict(np=np, Atoms=Atoms, bulk=bulk, Harm=Harm, Rec=Rec, RLogger=RLogger,
                 RTraj=recording(TrajectoryObserver), RRestart=recording(RestartObserver),
                 Can=counting(Canonical, True), GC=counting(GrandCanonical, True), FB=counting(ForceBias, False),
+                AFB=counting(AdaptiveForceBias, False), HarmComm=HarmComm,
                 DisplacementMove=DisplacementMove, ExchangeMove=ExchangeMove)
 
 
@@ -153,6 +165,8 @@ def build(case):
         from ase.calculators.emt import EMT
 
         atoms.calc = EMT()
+    elif case["driver"] == "afb":
+        atoms.calc = E["HarmComm"]()
     else:
         atoms.calc = E["Harm"]()
     sink: list = []
@@ -170,7 +184,7 @@ def build(case):
         kw = dict(logfile=lg, trajectory=tr)
     else:
         kw = dict(logfile=files["log"], trajectory=files["traj"], logging_interval=li)
-        if d != "fb":
+        if d not in FBLIKE:
             kw["restart_file"] = files["restart"]
     seed = case["seed"]
     if d == "can":
@@ -181,6 +195,8 @@ def build(case):
                       number_of_exchange_particles=len(atoms),
                       default_exchange_move=E["ExchangeMove"](np.arange(len(atoms))),
                       default_displacement_move=E["DisplacementMove"](np.arange(len(atoms))), **kw)
+    elif d == "afb":
+        sim = E["AFB"](atoms, 0.02, 0.3, temperature=300.0, seed=seed, **kw)
     else:
         sim = E["FB"](atoms, delta=0.1, temperature=300.0, seed=seed, **kw)
     sim._executed = []
@@ -188,13 +204,13 @@ def build(case):
     # attach order (= dict insertion order of file_manager.observers)
     if wrap:
         ivs = [li, ti]
-        if d != "fb":
+        if d not in FBLIKE:
             rs = E["RRestart"](sim, files["restart"], interval=ri, mode="a")
             rs.sink, rs.pos, rs.sim = sink, 2, getsim
             sim.default_restart = rs
             ivs.append(ri)
     else:
-        ivs = [li, li, li] if d != "fb" else [li, li]  # logger, restart, trajectory | logger, trajectory
+        ivs = [li, li, li] if d not in FBLIKE else [li, li]  # logger, restart, trajectory | logger, trajectory
     for n, iv in enumerate(case["recint"]):
         pos = len(ivs)
         sim.file_manager.attach_observer(f"rec{n}", E["Rec"](iv, sink, pos, sim))
@@ -228,7 +244,7 @@ def digest(b: bytes) -> str:
 def observe(case, segs, entry):
     sim, files, sink, ivs = build(case)
     for n in segs:
-        drive(sim, entry, n, case["driver"] != "fb")
+        drive(sim, entry, n, case["driver"] not in FBLIKE)
     at = sim.atoms
     log = files["log"].getvalue()
     lines = log.split("\n")
@@ -290,7 +306,7 @@ def leading_zero(case):
 
 
 def fully_iterated(case):
-    return case["entry"] != "irunraw" or case["driver"] == "fb"
+    return case["entry"] != "irunraw" or case["driver"] in FBLIKE
 
 
 class RunSplit(common.Suite):
@@ -302,7 +318,7 @@ class RunSplit(common.Suite):
     # ---------------------------------------------------------------- generation
     def mk(self, rng, driver, segs, entry=None, force=None):
         if entry is None:
-            entry = rng.choice(["run", "run", "irun", "irunraw"] + (["srun", "srun"] if driver != "fb" else []))
+            entry = rng.choice(["run", "run", "irun", "irunraw"] + (["srun", "srun"] if driver not in FBLIKE else []))
         iv = lambda: rng.choice(IVALS + [1, 1, 2, 3, 0])  # noqa: E731
         c = {"driver": driver, "entry": entry, "segs": list(segs), "seed": rng.randrange(1, 2**31),
              "wrap": rng.random() < 0.6, "logint": iv(), "trajint": iv(), "restint": iv(),
@@ -317,7 +333,7 @@ class RunSplit(common.Suite):
         out = []
         # the zero-length corner, every driver and entry point
         for d in DRIVERS:
-            for e in ["run", "irun", "irunraw"] + (["srun"] if d != "fb" else []):
+            for e in ["run", "irun", "irunraw"] + (["srun"] if d not in FBLIKE else []):
                 for segs in ([0, 3], [0, 0, 2], [0], [0, 0], [2, 0, 1], [3, 0], [], [1], [0, 1, 0, 1, 0]):
                     out.append(self.mk(rng, d, segs, e, {"logint": 1, "recint": [1, 2, -1]}))
         nmax = 7 if tier == "quick" else 9
@@ -374,12 +390,12 @@ class RunSplit(common.Suite):
     def model_lines(self, case):
         d = case["driver"]
         if case["wrap"]:
-            ivs = [case["logint"], case["trajint"]] + ([case["restint"]] if d != "fb" else [])
+            ivs = [case["logint"], case["trajint"]] + ([case["restint"]] if d not in FBLIKE else [])
         else:
-            ivs = [case["logint"]] * (3 if d != "fb" else 2)
+            ivs = [case["logint"]] * (3 if d not in FBLIKE else 2)
         ivs = ivs + case["recint"]
         segs = ",".join(map(str, case["segs"])) or "-"
-        return [f"runloop fixed {'eager' if d == 'fb' else 'lazy'} {case['entry']} 0 {','.join(map(str, ivs))} {segs}"]
+        return [f"runloop fixed {'eager' if d in FBLIKE else 'lazy'} {case['entry']} 0 {','.join(map(str, ivs))} {segs}"]
 
     def model_obs(self, case, outs):
         w = outs[0].split()
@@ -391,14 +407,14 @@ class RunSplit(common.Suite):
                 p = t.split(":")
                 tr.append([int(p[0]), "H"] if p[1] == "H" else [int(p[0]), int(p[1]), int(p[2])])
         d = case["driver"]
-        ndef = (3 if d != "fb" else 2)
+        ndef = (3 if d not in FBLIKE else 2)
         m = {"step_count": int(w[1]), "executed": [] if w[4] == "-" else [int(x) for x in w[4].split(",")]}
         if case["segs"]:
             m["max_steps"] = int(w[2])
         m["log_seq"] = [e[1] for e in tr if e[0] == 0]
-        tpos = 1 if case["wrap"] or d == "fb" else 2
+        tpos = 1 if case["wrap"] or d in FBLIKE else 2
         m["frames"] = len([e for e in tr if e[0] == tpos])
-        if d != "fb":
+        if d not in FBLIKE:
             rpos = 2 if case["wrap"] else 1
             rc = [e[1] for e in tr if e[0] == rpos]
             m["restart_step"] = rc[-1] if rc else None
@@ -427,7 +443,7 @@ class RunSplit(common.Suite):
         calls: dict[int, list] = {}
         for e in obs["trace"]:
             calls.setdefault(e[0], []).append(e)
-        first = 0 if case["wrap"] else (3 if d != "fb" else 2)
+        first = 0 if case["wrap"] else (3 if d not in FBLIKE else 2)
         for pos in range(first, len(obs["intervals"])):
             iv = obs["intervals"][pos]
             got = [e for e in calls.get(pos, []) if e[1] != "H"]
@@ -497,7 +513,7 @@ class NoLoggerSplit(common.Suite):
             segs = [rng.randint(0, 3) for _ in range(rng.randint(1, 4))]
             if rng.random() < 0.6:
                 segs = [0] * rng.randint(1, 2) + segs
-            entry = rng.choice(["run", "irun"] + (["srun"] if d != "fb" else []))
+            entry = rng.choice(["run", "irun"] + (["srun"] if d not in FBLIKE else []))
             out.append({"driver": d, "entry": entry, "segs": segs, "seed": rng.randrange(1, 2**31),
                         "trajint": rng.choice([1, 2, 3, -1, -2]), "recint": [rng.choice(IVALS + [1, 2]) for _ in range(rng.randint(1, 2))]})
         return out
@@ -535,7 +551,7 @@ class NoLoggerSplit(common.Suite):
     def observe(self, case, segs, entry):
         sim, traj, sink, ivs = self.build(case)
         for n in segs:
-            drive(sim, entry, n, case["driver"] != "fb")
+            drive(sim, entry, n, case["driver"] not in FBLIKE)
         at = sim.atoms
         return {"step_count": int(sim.step_count), "executed": list(sim._executed), "trace": [list(e) for e in sink],
                 "intervals": ivs, "traj": traj.getvalue(),
@@ -549,7 +565,7 @@ class NoLoggerSplit(common.Suite):
     def model_lines(self, case):
         ivs = [case["trajint"], *case["recint"]]
         segs = ",".join(map(str, case["segs"])) or "-"
-        return [f"runloop fixed {'eager' if case['driver'] == 'fb' else 'lazy'} {case['entry']} - {','.join(map(str, ivs))} {segs}"]
+        return [f"runloop fixed {'eager' if case['driver'] in FBLIKE else 'lazy'} {case['entry']} - {','.join(map(str, ivs))} {segs}"]
 
     def model_obs(self, case, outs):
         w = outs[0].split()
